@@ -13,8 +13,9 @@ for d in seeded/${1:-*}/; do
   case "$n" in
     C01c-*) chk=C03 ;;
     C10b-*|C10c-*) chk=C12 ;;
-    C10d-*) chk=C13 ;;
-    C12d-*) chk=C03 ;;
+    C10d-*|C10e-*) chk=C13 ;;
+    C18e-*) chk=C03 ;;
+    C12d-*|C12e-*) chk=C03 ;;
     *) chk=$prop ;;
   esac
   # first pass with the instrumented builds only; the full check (release-profile rerun,
